@@ -7,7 +7,7 @@ import verif
 META = {
     "level": "model_checking",
     "engine": "afc",
-    "technique": "TLA+ spec ShmMutex (one action per atomic access of sys_lock/sys_unlock/futex) model-checked with TLC for MutualExclusion and NoLostWakeup; TLC's state graph is turned into edge-covering schedules that are replayed on the real mutex under the yield-point scheduler (spec->impl conformance), the verdict coming from the critical-section occupancy counter and the lost-wake-up detector",
+    "technique": "TLA+ spec ShmMutex (one action per atomic access of sys_lock/sys_unlock/futex) model-checked with TLC for MutualExclusion and NoLostWakeup; TLC's state graph is turned into edge-covering schedules that are replayed on the real mutex under the yield-point scheduler (spec->impl conformance), the verdict coming from the critical-section occupancy counter and the lost-wake-up detector; complemented by free-running races of the same operations on real unscheduled threads with the same oracle (stress, not exhaustive)",
     "text": "TLC checks the fine-grained PlusCal model of the futex mutex (CAS fast path, passive spin with the code's count, swap to SLEEPING, futex compare-and-block, swap to UNLOCKED, wake one) for mutual exclusion with and without spurious wake-ups and, under weak fairness without spurious wake-ups, that every locker eventually enters the critical section and all threads finish; a spec-level mutant (wake only when LOCKED was seen) must be rejected. The labelled state graphs for 2 threads x 2 rounds and 3 threads x 1 round with PASSIVE_SPIN=5, and for 3 threads with rounds (2,1,1) and PASSIVE_SPIN=1 (a spinning thread runs through the code's remaining loads within the step) are dumped, together with a targeted schedule family (a thread loses its spin-loop CAS, the lock is released before its next load, it then acquires); a set of complete paths covering every transition is computed and each path is executed step by step on the real Mutex (yield points before every atomic access, futex wait/wake routed to the scheduler), comparing key word, per-thread site and sleeper set after every step; random complete behaviours of 3 threads x 2 rounds come from TLC simulation. VIOLATION only if two threads are inside the critical section or a thread stays parked in futex_wait when nothing can wake it.",
     "note": "Bounds: <=3 threads, <=2 rounds; PASSIVE_SPIN=5 in all replayed schedules and in the 2x2 liveness run; 3x2 design-level runs: safety+liveness with PASSIVE_SPIN=1 (thorough also 2), safety with 5 (thorough). Additionally free-running contention on real unscheduled threads with the real futex (2 and 4 threads, 2.5 s each quick / 10 s thorough, ~10^7 critical sections) with the occupancy monitor, the mutex-protected plain counter and completion within 10 s as oracle: a stress complement that reaches interleavings inside a split atomic operation, not exhaustive. Sequentially consistent interleavings only in the schedules: weakening an atomic Ordering is not detectable (DESIGN §9). Test threads are coroutines on one OS thread (the scheduler serialises execution anyway). Trusts the yield points to sit before every access of the key word (a missing one shows as drift).",
 }
